@@ -9,8 +9,9 @@ rm -rf $VERIF_COPY; mkdir -p $VERIF_COPY
 rsync -a --exclude sim/target --exclude .git /verif/ $VERIF_COPY/
 sed -i "s#\"/repo/#\"$REPO_COPY/#g" $VERIF_COPY/sim/Cargo.toml
 cd $VERIF_COPY
-out=/verif/seeded/REGRESSION.txt; : > $out
-for d in /verif/seeded/C*; do
+out=/verif/seeded/REGRESSION.txt; [ -n "${APPEND:-}" ] || : > $out
+# REG_GLOB / BEN_GLOB restrict the run (default: everything); APPEND=1 keeps earlier lines
+for d in $(cd /verif/seeded && ls -d ${REG_GLOB:-C*} 2>/dev/null | sed "s#^#/verif/seeded/#"); do
   id=$(basename $d); prop=$(python3 -c "import json;print(json.load(open('$d/meta.json'))['property'])")
   extra=$(python3 -c "
 import json;m=json.load(open('$d/meta.json'))['detection']
@@ -25,7 +26,7 @@ else: print(p)")
   echo "$id property=$extra exit=$rc $(echo "$r" | grep -E '^violation in run' | head -1 | cut -c1-160)" | tee -a $out
   git -C $REPO_COPY checkout -- .
 done
-for d in /verif/seeded/benign-*; do
+for d in $(cd /verif/seeded && ls -d ${BEN_GLOB:-benign-*} 2>/dev/null | sed "s#^#/verif/seeded/#"); do
   id=$(basename $d); git -C $REPO_COPY apply $d/patch.diff || { echo "$id APPLY-FAILED" | tee -a $out; continue; }
   bad=""
   for p in C01 C02 C03 C04 C05 C06 C07 C08 C09 C10 C11 C12 C13 C14 C15 C16 C17 C18 C19 C20; do
